@@ -91,6 +91,17 @@ prop('C19', True, "Lean model of the helper loop and of is_failed() on an intege
      "Timing assumption (stated in the theorem): a round overshoots its sleep by less than Delta; a refresh racing the helper's own SIGKILL is not modelled; getppid()/kill() semantics trusted.",
      "Lean 4 proof (invariant over rounds, linear arithmetic) + kernel-checked extracted constants/traces + simulated-clock correspondence + real helper process")
 
+prop('C05', True, "Lean model of a write at the level of file-system primitives with three layers per file (Python buffer, OS cache, disk): mkstemp/write/direct write/flush/fsync/close/fsync(dir)/rename. Theorems for every "
+     "operation sequence accepted by the decidable discipline check `safeSeq` and every cut point: visible_implies_complete (a reader / post-kill / post-power-loss image that shows the final name shows all bytes), "
+     "invisible_before_rename, residue_is_temp_only (an interrupted write leaves only a file under tempfiles/), after_rename, bad_sticky. Translator: on every run the real file_store.dump / resave_pack / update_pack are executed "
+     "with every file-system primitive interposed, for pickles small and large, None, plain/empty/0-d/F-order/strided/object/datetime/compressed arrays, overwrite of a packed key; the recorded sequences are regenerated into "
+     "Generated/DumpSeqs.lean and the kernel checks dump_sequences_safe, packed_overwrite_order (new file published before the stale packed copy is dropped) and redis_dump_is_one_set. Failing-input search: before EVERY primitive of the real "
+     "write a fresh store object reads the live directory (loadable => a value that was written; no temp file listed as a key; an overwritten key always has its old or new value; other keys intact) and files reachable under final names "
+     "that are not fully fsynced are truncated to their durable length and read (power loss); redis: a second client reads before every command.",
+     "Trusted: POSIX rename atomicity, fsync durability, ordered durability of directory operations (the model's power-loss semantics); harness interposition (fsgate/dumpcheck) sees exactly the file-system calls made through the names "
+     "file_store.py uses plus the traced writer object; torn writes below one write call and NFS client caching are not exhibited; the bytes themselves (pickle/npy decoding of a complete file) are C06's.",
+     "Lean 4 proof (invariant over primitive sequences, all cut points) + kernel-checked re-extracted write sequences + reader/kill/power-loss probes at every primitive of real writes")
+
 prop('C06', True, "Lean model of the file store with its pack (loose files, in-memory pack, pack file; dump/load/can_load/remove/remove_many/list/pack/close+reopen/cleanup) and refinement proof to a plain map: "
      "step_refines (same answer, abstraction commutes, well-formedness kept) and store_refines_map (any history, by induction), list_nodup, reopen_id, pack_id. Correspondence: random histories x a generated value universe "
      "x file / file+compression / in-memory / in-memory with backing file / redis-protocol backends answer exactly like the compiled model and like a Python dict (values compared by type and content); a stale-client family covers "
